@@ -641,8 +641,8 @@ func rulesC18(c *Ctx) {
 	c.c18SendSplit()
 	R.Rule("R11", "proof selection does not corrupt its candidate lists: no append into a proper prefix of a list whose remainder is still used (shared backing array)", 1)
 	c.ruleNoAppendIntoLivePrefix("R11", []string{"wallet", "wallet/storage", "cashu"})
-	R.Rule("R10", "the stored keyset keeps its fee: every storage method that writes or reads one kind of record (keyset, proof, quote) uses a type with the same JSON members - a counter update through a narrower type would drop the keyset's input fee", 8)
-	c.ruleStoredRecordShape("R10", "wallet/storage", 8)
+	R.Rule("R10", "the stored keyset keeps its fee: every storage method that writes or reads one kind of record (keyset, proof, quote) uses a type with the same JSON members - a counter update through a narrower type would drop the keyset's input fee", 5)
+	c.ruleStoredRecordShape("R10", "wallet/storage", 5)
 	R.Rule("R9", "Send selects and removes its proofs in one critical section: the call that selects the proofs and deletes them from the spendable bucket runs with the wallet mutex held (taken before, released only by the deferred unlock)", 1)
 	R.Rule("R8", "the keyset listing the wallet synchronises with is not served from the mint's response cache (shared with C20.R4: only swap and mint are cached; a cached listing keeps naming a rotated-out keyset as active and the swap behind a send is refused)", 10)
 	R.Rule("R6", "the mint's fee operation is the formula the wallet mirrors: ceil(sum of the inputs' keyset ppk / 1000), one rounding per transaction (shared with C02.R4)", 1)
